@@ -6,6 +6,9 @@ CONSTANTS
   Topos <- Topos22
   Strict = FALSE
   Breaker = TRUE
+  RejectKinds = {"open", "limit"}
+  CancelSet <- CancelFree
+  CtxKinds = {"cancel", "deadline"}
   KeepSeen = FALSE
   BudgetSet = {0}
 INVARIANT TypeOK
